@@ -61,6 +61,11 @@ CHECKS["C14"] = dict(
    text="Generated-input search with explicit oracles: arithmetic expression trees over stored, pixel, world and earlier derived attributes with constants on either side, user-function links (vectorised, ravel-returning, constant-returning) and parsed text expressions are read whole and through every view form and must equal the same expression evaluated with numpy on the inputs' full arrays (shape and NaN-equal values); histories of add/remove/update_id must remove exactly the transitive dependents and keep every other value and the component order.",
    note="Trusted: numpy/Python operators as the expression semantics; input values are read from the dataset itself; exponents restricted to {2,3,-1}.",
    ref="DESIGN.md section 4 C14")
+CHECKS["C15"] = dict(
+   technique="property-based testing (Hypothesis) against own matrix algebra for affine/identity coordinates",
+   text="Generated-input search with an explicit oracle: for generated affine matrices of every sparsity pattern (diagonal, coupled, dense, block, permuted, triangular, chain) and identity coordinates, shapes and views, the world attributes, every automatically created pixel->world / world->pixel link (whole and viewed), the coordinate object's own inverse and a second dataset linked to the world attributes must agree with M.pixel-grid computed independently.",
+   note="Trusted: numpy matrix arithmetic on dyadic entries (forward exact; inverse rtol 1e-9). astropy WCS objects out of scope.",
+   ref="DESIGN.md section 4 C15")
 NOT_APPLICABLE = []
 
 def main():
